@@ -21,12 +21,10 @@ fn base_world() -> World {
 // payload: setup(reactor) then cleanup, each exactly once, in that order, whether or not the target entity exists
 // (C03, C05, C11, C18).  Shape: loop-free; target alive / dead symbolic.
 // ---------------------------------------------------------------------------------------------------------------
-//# id=K.runner.cleanup_on_abort props=C03,C05,C18 strength=complete shape="loop-free; target entity alive/dead symbolic" tier=quick fns=cleanup_on_abort,SystemCommandSetup::run,SystemCommandCleanup::run
-#[kani::proof] #[kani::unwind(10)]
-fn k_runner_cleanup_on_abort() {
+fn cleanup_on_abort_contract<const DEAD: bool>() {
     let mut world = base_world();
     let target = world.spawn_empty().id();
-    let dead: bool = kani::any();
+    let dead: bool = DEAD;
     if dead { world.despawn(target); }
     let setup = SystemCommandSetup::new(SystemCommand(target), setup_fn);
     let cleanup = SystemCommandCleanup::new(cleanup_fn);
@@ -36,3 +34,7 @@ fn k_runner_cleanup_on_abort() {
     assert!(t.who == target.index(), "cleanup_on_abort: setup is run for the aborted command's own system");
     core::mem::forget(world);
 }
+//# id=K.runner.cleanup_on_abort.dead props=C03,C05,C18 strength=complete shape="target entity dead" tier=off fns=cleanup_on_abort,SystemCommandSetup::run,SystemCommandCleanup::run
+#[kani::proof] #[kani::unwind(6)] fn k_runner_cleanup_on_abort_dead() { cleanup_on_abort_contract::<true>(); }
+//# id=K.runner.cleanup_on_abort.alive props=C03,C05,C18 strength=complete shape="target entity alive" tier=off fns=cleanup_on_abort,SystemCommandSetup::run,SystemCommandCleanup::run
+#[kani::proof] #[kani::unwind(6)] fn k_runner_cleanup_on_abort_alive() { cleanup_on_abort_contract::<false>(); }
